@@ -62,6 +62,39 @@ def nil_guard_cases():
     return out
 
 
+def other_keyword_cases():
+    """keywords of JSON Schema that the generator does not turn into checks today (uniqueItems, contains, minProperties, propertyNames, const, not,
+    if/then, dependencies, patternProperties ...), on element types of every shape: whatever the generator does with them, the methods stay total"""
+    from vlib.kitchen import Case
+    items = [{"type": "array", "items": {"type": "integer"}}, {"type": "object", "properties": {"k": {"type": "array", "items": {"type": "string"}}}}, {},
+             {"type": "object", "additionalProperties": {"type": "integer"}}, {"type": "string"}, {"type": "number"}, {"type": ["string", "null"]}]
+    vals = [[[1, 2], [3, 4]], [{"k": ["a"]}, {"k": ["a"]}], [{"a": 1}, [1], "s", 1, None], [{"a": 1}, {"a": 1}], ["a", "a"], [1.5, 1.5], ["a", None, "a"]]
+    out = []
+    n = 0
+    for it, v in zip(items, vals):
+        for extra in ({"uniqueItems": True}, {"uniqueItems": True, "minItems": 1, "maxItems": 1000}, {"contains": it}, {"uniqueItems": False}):
+            arr = dict({"type": "array", "items": it}, **extra)
+            root = {"type": "object", "properties": {"points": arr, "opt": dict(arr)}, "required": ["points"]}
+            docs = [{"doc": {"points": v}, "cls": "values", "path": ()}, {"doc": {"points": v[:1]}, "cls": "values", "path": ()}, {"doc": {"points": []}, "cls": "empty", "path": ()},
+                    {"doc": {"points": None}, "cls": "null", "path": ()}, {"doc": {"points": v, "opt": v}, "cls": "values", "path": ()}, {"doc": None, "cls": "null-document", "path": ()},
+                    {"doc": {"points": v}, "cls": "values+prior", "path": (), "prior": json.dumps({"points": v[:1]})}]
+            for wire in ("json", "yaml"):
+                out.append(Case("c19ok%d" % n, root, [dict(d) for d in docs], fam="other-keywords/array/%s" % wire, extra_imports=True, wire=wire, no_model=True))
+                n += 1
+    obj = {"type": "object", "properties": {"a": {"type": "string"}, "b": {"type": "integer"}}}
+    for extra in ({"minProperties": 1}, {"maxProperties": 1}, {"propertyNames": {"pattern": "^[a-z]$"}}, {"patternProperties": {"^x": {"type": "integer"}}},
+                  {"dependencies": {"a": {"required": ["b"]}}}, {"not": {"required": ["a"]}}, {"if": {"required": ["a"]}, "then": {"required": ["b"]}}, {"const": {"a": "x"}},
+                  {"oneOf": [{"required": ["a"]}, {"required": ["b"]}]}, {"dependentRequired": {"a": ["b"]}}):
+        sc = dict(obj, **extra)
+        root = {"type": "object", "properties": {"o": sc, "l": {"type": "array", "items": sc}}}
+        docs = [{"doc": {"o": {}}, "cls": "values", "path": ()}, {"doc": {"o": {"a": "x"}}, "cls": "values", "path": ()}, {"doc": {"o": {"a": "x", "b": 1, "x1": 2}}, "cls": "values", "path": ()},
+                {"doc": {"o": None, "l": [None, {}]}, "cls": "null", "path": ()}, {"doc": {"l": [{"a": "x"}, {"b": 2}]}, "cls": "values", "path": ()}, {"doc": None, "cls": "null-document", "path": ()}]
+        for wire in ("json", "yaml"):
+            out.append(Case("c19ok%d" % n, root, [dict(d) for d in docs], fam="other-keywords/object/%s" % wire, extra_imports=True, wire=wire, no_model=True))
+            n += 1
+    return out
+
+
 def run(ctx):
     ctx.proof_step(PROPS_FILE)
     n = 40 if ctx.tier == "quick" else 500
@@ -136,7 +169,7 @@ def run(ctx):
         for v in SHAPES:
             docs.append({"doc": v, "cls": "shape", "path": ()})
         cases2.append(Case("c19tn" + wire, tn, docs, fam="template-names/" + wire, extra_imports=True, wire=wire, no_model=True))
-    cases2 += nil_guard_cases()
+    cases2 += nil_guard_cases() + other_keyword_cases()
     run_cases(ctx, cases2, "c19i")
     # the inner types of the composite cases (known only after generation)
     cases3 = []
